@@ -8,7 +8,8 @@ import "context"
 // carries it, for values, errors and completion alike.
 func vC09Cat(L int) {
 	op := &vCatalog[vChoice("entry", len(vCatalog))]
-	if op.nsrc > 1 || op.name == "DefaultIfEmpty" {
+	if op.nsrc > 1 || op.name == "DefaultIfEmpty" || op.name == "ContextReset" || op.name == "ContextReset_nil" {
+		// ContextReset replaces the context by definition.
 		// DefaultIfEmpty(v) is DefaultIfEmptyWithContext(context.Background(), v): a deliberate,
 		// documented context reset for the default item (excluded by name, see DESIGN.md C09)
 		vAssume(false)
